@@ -264,3 +264,128 @@ def check_c04(tier, seed, replay=None, selftest=False):
                      "key expansion: schedules compared byte for byte with Aes!EncSchedule/DecSchedule (FIPS 197 5.2 written in TLA+), "
                      "families sse/avx + dispatched; CBC: every multiple of 16 up to 640 bytes and around the 64-block loop boundaries, "
                      "enc x4/x8, dec sse/avx/vaes_avx512, 128/192/256, in place and out of place, compared with AesModes!CbcEnc/CbcDec")
+
+
+# ------------------------------------------------------------------------------------------ multi-hash / rolling hash
+import gen_mh
+MH_SRCS = ["main.c", "core.c", "vcall.S", "drv_mh.c"]
+MH_WRAPS = ["_rolling_hash2_run_until"]
+
+
+def mh_check(pid, tier, seed, replay, make_jobs, rule, props=None):
+    chk = verif.Check(pid, "model_checking", tier, seed)
+    props = props or {pid}
+    exe = build.build_driver("mh", MH_SRCS, wraps=MH_WRAPS)
+    if replay:
+        lines = [x for x in open(replay).read().splitlines() if x and not x.startswith("#")]
+        outs = run_jobs([{"name": "replay", "behaviours": [lines]}], exe, "TraceMh")
+        collect(chk, outs, props, marker="Mark")
+        chk.cov.update({"states": 1, "transitions": 1, "traces_validated_against_impl": 1, "samples": [replay], "evaluations": 1, "distinct_nontrivial": 2})
+        return chk.finish()
+    rng = random.Random(seed * 15485863 + int(pid[1:]))
+    jobs = make_jobs(rng, tier)
+    outs = run_jobs(jobs, exe, "TraceMh")
+    nb, ne = collect(chk, outs, props | {"SPEC"}, marker="Mark")
+    _finish_traces(chk, jobs, outs, nb, ne, rule)
+    chk.assumptions += ["TLC + Java primitive overrides (self-tested at setup)", "host CPU executes every family"]
+    return chk.finish()
+
+
+@reg("C05")
+def check_c05(tier, seed, replay=None, selftest=False):
+    def mk(rng, tier):
+        n = 10 if tier == "quick" else 200
+        j = gen_mh.mh_jobs(rng, "sha1", n)
+        j.update(gen_mh.mh_jobs(rng, "sha256", n))
+        return merge_jobs(j, key=lambda n: n, driver="mh")
+    return mh_check("C05", tier, seed, replay, mk,
+                    "one behaviour = init / update* / finalize of one stream (totals around the 1015/1016 two-block tail threshold and "
+                    "1024-byte multiples, 1..8 updates incl. empty ones, cuts at every residue class near block boundaries) per family "
+                    "(base sse avx avx2 avx512 + isal_/legacy/legacy *_base entry points), mh_sha1 and mh_sha256; TLC recomputes the digest "
+                    "from MultiHash!MhDigest (the definition written in TLA+) over the concatenation the spec recorded")
+
+
+@reg("C10")
+def check_c10(tier, seed, replay=None, selftest=False):
+    def mk(rng, tier):
+        return merge_jobs(gen_mh.mh_jobs(rng, "murmur", 14 if tier == "quick" else 300), key=lambda n: n, driver="mh")
+    return mh_check("C10", tier, seed, replay, mk,
+                    "as C05 for the stitched function with seeds {0, 1, 2^32-1, 2^63, 2^64-1, random}; TLC checks the mh_sha1 half against "
+                    "MultiHash!MhDigest and the murmur half against MurmurHash3_x64_128 of the whole stream with both state words = seed")
+
+
+@reg("C09")
+def check_c09(tier, seed, replay=None, selftest=False):
+    def mk(rng, tier):
+        return merge_jobs(gen_mh.rh_jobs(rng, 12 if tier == "quick" else 250), key=lambda n: n, driver="mh")
+    return mh_check("C09", tier, seed, replay, mk,
+                    "one behaviour = init(w) / reset / run* where every run resumes at the offset the library returned; max_len from "
+                    "{0,1,w-1,w,w+1,..,random}, masks of 2..8 rotated bits and random sparse masks, trigger 0 or trigger&~mask=0; scan routine "
+                    "forced to base/_00/_04/dispatched through a link seam; TLC recomputes offset, match and state->hash from the window "
+                    "recurrence over the pinned table (RhTable) keeping only the last w bytes as state")
+
+
+# ------------------------------------------------------------------------------------------ C15 long streams
+def c15_behaviour(rng, alg, fam, crossing, nctx=1):
+    """segments whose running total crosses 2^29 / 2^32 / 2^32+2^29 at a chosen residue; each submit < 2^32"""
+    B = gen_hash.BLOCK[alg]
+    P = gen_hash.LENF[alg]
+    cmds = ["hmgr %s %s %d" % (alg, fam, nctx)]
+    for c in range(nctx):
+        b = rng.randrange(2, 1 << 20)
+        res = rng.choice([0, 1, B - P - 1, B - P, B - 1])
+        segs = []
+        if crossing == 29:
+            first = (1 << 29) - rng.choice([1, B, 3 * B + 5, 1000])
+            segs = [first, (1 << 29) - first + res + rng.choice([0, B, 5 * B])]
+        elif crossing == 32:
+            if rng.random() < 0.5:
+                segs = [(1 << 32) - 1, 1 + res + rng.choice([0, B])]                 # one maximal submit
+            else:
+                a = (1 << 31) + rng.randrange(0, 1 << 20)
+                segs = [a, (1 << 32) - a - rng.choice([1, 7, B]), rng.choice([1, 7, B]) + res]
+        else:
+            segs = [(1 << 32) - 1, (1 << 29) - rng.choice([0, 3, B]), rng.choice([1, 3, B]) + res + B]
+        tail = [rng.choice([0, 1, B - P, 70])]
+        allsegs = segs + tail
+        off = rng.randrange(1 << 20)
+        for i, ln in enumerate(allsegs):
+            flag = 1 if i == 0 else (2 if i == len(allsegs) - 1 else 0)
+            cmds.append("hsubw %d %d %d %d %d e" % (c, flag, b, off, ln))
+            off += ln
+    cmds.append("hdrain 40")
+    cmds.append("hend")
+    return cmds
+
+
+@reg("C15")
+def check_c15(tier, seed, replay=None, selftest=False):
+    chk = verif.Check("C15", "model_checking", tier, seed)
+    props = {"C15"}
+    if replay:
+        hash_replay(chk, replay, props)
+        chk.cov.update({"states": 1, "transitions": 1, "traces_validated_against_impl": 1, "samples": [replay]})
+        return chk.finish()
+    exe = build.build_driver("hash", HASH_SRCS)
+    rng = random.Random(seed * 31337 + 15)
+    jobs = []
+    for ai, alg in enumerate(gen_hash.FAMS):
+        fams = gen_hash.FAMS[alg]
+        if tier == "quick":
+            sel = [fams[(seed + ai) % len(fams)], "isal"]
+            plan = [(f, 29) for f in sel] + [(sel[0], 32)]
+        else:
+            plan = [(f, x) for f in fams + ["isal", "legacy"] for x in (29, 32)] + [(fams[(seed + ai) % len(fams)], 33), ("isal", 33)]
+        for fam, crossing in plan:
+            jobs.append(hash_job("c15-%s-%s-%d" % (alg, fam, crossing), [c15_behaviour(rng, alg, fam, crossing)]))
+    outs = run_jobs(jobs, exe, "TraceHash")
+    nb, ne = collect(chk, outs, props)
+    _finish_traces(chk, jobs, outs, nb, ne,
+                   "one behaviour = one stream whose running total crosses 2^29, 2^32 (incl. a single 2^32-1 byte submit) or 2^32+2^29 at "
+                   "residues {0,1,B-P-1,B-P,B-1}; the caller's buffer is a 4 GiB virtual window repeating a 1 MiB pattern; TLC checks the "
+                   "reported total_length (pair arithmetic) and the digest (streaming primitive over the same segments); quick rotates one "
+                   "family per algorithm with the seed + the dispatched entry, thorough runs all 28 families")
+    chk.cov["distinct_nontrivial"] = len(jobs)
+    chk.assumptions += ["digest of >2^29-byte streams computed by Prim!DigestOfSegs (JDK MessageDigest / own SM3), cross-checked against the "
+                        "TLA+ definition HashStd!Digest on short streams at setup", "periodic pattern data (period 2^20)"]
+    return chk.finish()
